@@ -231,6 +231,18 @@ lazy_static! {
   static ref CHILD_LIMIT_PROVIDER: Arc<Mutex<Box<dyn ChildLimitProvider + Sync + Send + 'static>>> = Arc::new(Mutex::new(Box::new(DefaultChildLimitProvider::new())));
 }
 
+/// Verification hook (feature `verif`): back to the state of a fresh process.
+#[cfg(feature = "verif")]
+pub fn verif_reset() {
+  CHILD_LIMIT_PROVIDER.clear_poison();
+}
+
+/// Verification hook (feature `verif`): poison flag of the provider mutex.
+#[cfg(feature = "verif")]
+pub fn verif_state() -> bool {
+  CHILD_LIMIT_PROVIDER.is_poisoned()
+}
+
 /// 童限（从出生到起运的时间段）
 #[derive(Debug, Clone)]
 pub struct ChildLimit {
